@@ -73,7 +73,7 @@ fn run_req(ctx: &Ctx, r: &Req, tag: &str) -> (cli::RunOut, String) {
     if r.dot {
         args.push("--dot".into());
     }
-    let f = dir.join("out.txt");
+    let f = dir.join(super::common::hostile_file_name(r.v.unwrap_or(0) + r.e.unwrap_or(0), "out.txt"));
     if r.to_file {
         // the output file already exists and is longer than what will be written (feasible requests only:
         // an infeasible request must not write anything, which is checked on a fresh path)
@@ -246,10 +246,12 @@ fn convert_case(ctx: &Ctx, st: &mut Stats, edges: &[(String, String)], undirecte
     st.evals += 1;
     let dir = ctx.fresh_dir(&format!("c18c-{}", tag));
     let _ = std::fs::create_dir_all(&dir);
-    let f = dir.join("in.csv");
     let csv: String = edges.iter().map(|(a, b)| format!("{},{}\n", a, b)).collect();
-    let _ = std::fs::write(&f, &csv);
-    let mut args = vec!["--convert".to_string(), f.display().to_string()];
+    // the file to convert is a regular file, a named pipe or /dev/stdin (chosen by the content)
+    let mode = [0u8, 0, 3, 4][(csv.len() + undirected as usize + 2 * dot as usize) % 4];
+    let plan = super::common::plan_input(mode, &dir, "in.csv", csv.as_bytes());
+    st.bump(&format!("convert_input_channel_{}", mode));
+    let mut args = vec!["--convert".to_string(), plan.path_arg.clone().unwrap_or_default()];
     if undirected {
         args.push("-u".into());
     }
@@ -260,7 +262,7 @@ fn convert_case(ctx: &Ctx, st: &mut Stats, edges: &[(String, String)], undirecte
         args.push("--colors".into());
         args.push(k.to_string());
     }
-    let out = cli::run(&ctx.bin("random_graph_gen"), &args, None, Some(&dir), None, Duration::from_secs(60));
+    let out = cli::run_fed(&ctx.bin("random_graph_gen"), &args, plan.stdin.as_deref(), &plan.feed, Some(&dir), None, Duration::from_secs(60));
     let _ = std::fs::remove_dir_all(&dir);
     let case = || json!({"kind": "convert", "csv": csv, "undirected": undirected, "dot": dot, "colors": colors});
     let desc = format!("random_graph_gen --convert <{:?}>{}{}{}", csv.replace('\n', ";"), if undirected { " -u" } else { "" }, if dot { " -d" } else { "" }, colors.map(|k| format!(" --colors {}", k)).unwrap_or_default());
@@ -511,7 +513,7 @@ pub fn run(ctx: &Ctx) -> (Stats, Spec) {
     let mut st = crate::report::merge_all(parts);
     st.exhaustive.push("every request (V <= 6, E <= max+2, -u, --dot, stdout / -o) and --complete for V <= 6; --convert on all digraphs with <= 3 vertices; --colors k (k = 0..3) on all loop-free graphs with 2..4 vertices".into());
     let spec = Spec {
-        rule: "all (V in 0..6, E in 0..max+2, -u, --dot, stdout or -o) requests and boundary edge counts for V in {11, 17, 40}, feasible ones repeated 10 [quick] / 60 [thorough] times (every run is a fresh random sample; the number of distinct outputs seen is reported), --complete with and without an edge count, missing arguments; --convert on every digraph with <= 3 vertices random edge lists over 4-5 vertices, and (under -u) ordered pairs of distinct edges over five names of every family (a third of them [quick] / all [thorough]) (shuffled rows; exact duplicates and self-loops without -u; reversed pairs under -u), --colors 0..3 on every loop-free graph with 2..4 (thorough: sampled 5) vertices, with seven vertex-name families (names that collide under joining with '-', '_' or '.'; plain; one name a prefix of another: v1 / v10 / v1X, 1 / 10 / 100; names containing the colour suffix pattern), and --colors on generated complete graphs with 11-12 vertices. distinct = (request, output); non-trivial = 0 < E < max resp. non-empty input.".into(),
+        rule: "all (V in 0..6, E in 0..max+2, -u, --dot, stdout or -o) requests and boundary edge counts for V in {11, 17, 40}, feasible ones repeated 10 [quick] / 60 [thorough] times (every run is a fresh random sample; the number of distinct outputs seen is reported), --complete with and without an edge count, missing arguments; --convert (file to convert: a regular file, a named pipe or /dev/stdin) on every digraph with <= 3 vertices, random edge lists over 4-5 vertices, and (under -u) ordered pairs of distinct edges over five names of every family (a third of them [quick] / all [thorough]) (shuffled rows; exact duplicates and self-loops without -u; reversed pairs under -u), --colors 0..3 on every loop-free graph with 2..4 (thorough: sampled 5) vertices, with seven vertex-name families (names that collide under joining with '-', '_' or '.'; plain; one name a prefix of another: v1 / v10 / v1X, 1 / 10 / 100; names containing the colour suffix pattern), and --colors on generated complete graphs with 11-12 vertices. distinct = (request, output); non-trivial = 0 < E < max resp. non-empty input.".into(),
         assumptions: vec![
             "uniformity of the random sample is not claimed by the property and not tested".into(),
             "self-loops and exact duplicates are not given to --convert -u / --colors (their treatment is a convention the statement does not fix)".into(),
